@@ -75,6 +75,12 @@ _add(_c("r_revbt", "LSN", [2, 2], [3, 4, 3], 1, "lsn", dict(orthogonal=True, rev
 _add(_c("r_twopi", "LSN", [2, 2], [3, 4, 3], 1, "lsn", dict(orthogonal=True, psi_divide_twopi=True), fpol="quad", psi_scale=6.283185307179586))
 _add(_c("rn_base", "LSN", [2, 2], [3, 4, 3], 1, "lsn", dict(orthogonal=False), fpol="quad"))
 _add(_c("rn_negpsi", "LSN", [2, 2], [3, 4, 3], 1, "lsn", dict(orthogonal=False), fpol="quad", psi_sign=-1.0))
+_add(_c("rn_revbt", "LSN", [2, 2], [3, 4, 3], 1, "lsn", dict(orthogonal=False, reverse_Bt=True), fpol="quad"))
+# non-orthogonal mirror pair, and a disconnected double null whose two private-flux limits differ (exchanged in the mirror image)
+_add(_c("mn_lsn", "LSN", [2, 2], [3, 4, 4], 1, "lsn", dict(orthogonal=False), fpol="quad", wall="slanted"))
+_add(_c("mn_usn", "USN", [2, 2], [4, 4, 3], 1, "lsn", dict(orthogonal=False), fpol="quad", wall="slanted", mirror=True))
+_add(_c("m_ldn_pf", "LDN", [2, 1, 2], [3, 3, 3, 3, 3, 3], 1, "ldn", dict(orthogonal=True, psinorm_pf_lower=0.93, psinorm_pf_upper=0.97, **DN), fpol="quad"))
+_add(_c("m_udn_pf", "UDN", [2, 1, 2], [3, 3, 3, 3, 3, 3], 1, "ldn", dict(orthogonal=True, psinorm_pf_lower=0.97, psinorm_pf_upper=0.93, **DN), fpol="quad", mirror=True))
 # the same equilibria through a geqdsk file (tokamak.read_geqdsk: profiles between axis and separatrix, simagx / sibdry carried by the file) - seed C03_btaxis_gfile_revcur
 _add(_c("r_gf_base", "LSN", [2, 2], [3, 4, 3], 1, "lsn", dict(orthogonal=True), fpol="quad", pressure="quad", gfile=True))
 _add(_c("r_gf_revcur", "LSN", [2, 2], [3, 4, 3], 1, "lsn", dict(orthogonal=True, reverse_current=True), fpol="quad", pressure="quad", psi_sign=-1.0, gfile=True))
@@ -87,7 +93,8 @@ C16_PAIRS = [("m_lsn", "m_usn", "mirror"), ("m_lsn_t", "m_usn_t", "mirror"), ("m
              ("r_base", "r_negpsi", "negpsi"), ("r_base", "r_revcur", "same"), ("r_base", "r_revbt", "revbt"), ("r_base", "r_twopi", "same"),
              ("rn_base", "rn_negpsi", "negpsi"),
              ("r_gf_base", "r_gf_revcur", "same"), ("r_gf_base", "r_gf_twopi", "same"), ("r_gf_base", "r_gf_revbt", "revbt"),
-             ("ldn_orth_wide", "ldn_wide_revcur", "negpsi")]
+             ("ldn_orth_wide", "ldn_wide_revcur", "negpsi"),
+             ("rn_base", "rn_revbt", "revbt"), ("mn_lsn", "mn_usn", "mirror"), ("m_ldn_pf", "m_udn_pf", "mirror")]
 
 # ---- pairs for C10 (all ny doubled, nx unchanged: every face of the coarse grid must be a face of the fine grid)
 _add(_c("lsn_orth_y2", "LSN", [2, 2], [6, 8, 6], 1, "lsn", dict(orthogonal=True), fpol="quad", pressure="quad", wall="slanted"))
@@ -167,7 +174,7 @@ ENVELOPE_QUICK = ["env_ny1", "env_g4", "env_nfine5", "env_len_small", "env_nx1",
 ENVELOPE = ENVELOPE_QUICK + ["env_sol_wide", "env_len_big", "env_core_deep", "env_cdn_second_inside", "env_nonorth_n50", "env_sepmult", "env_lim"]
 
 CORE_CAMPAIGN = ["lsn_orth", "usn_orth", "lsn_orth_rev", "lsn_nonorth", "lsn_nonorth_rev", "cdn_orth", "ldn_orth",
-                 "udn_nonorth", "core_orth", "lim_orth", "lsn_orth_x2", "lsn_orth_g2", "lsn_orth_extrap", "udn_orth", "xpt_orth", "lsn_tilt_orth"]
+                 "udn_nonorth", "core_orth", "lim_orth", "lsn_orth_x2", "lsn_orth_g2", "lsn_orth_extrap", "udn_orth", "xpt_orth", "lsn_tilt_orth", "lsn_orth_dct"]
 
 # ---- extended campaign (thorough tier) ------------------------------------------------
 _add(_c("usn_nonorth", "USN", [2, 2], [3, 4, 3], 1, "usn", dict(orthogonal=False), fpol="quad"))
@@ -185,7 +192,7 @@ _add(_c("lsn_orth_wide", "LSN", [3, 3], [4, 6, 4], 1, "lsn", dict(orthogonal=Tru
 _add(_c("lsn_orth_n50", "LSN", [2, 2], [3, 4, 3], 1, "lsn", dict(orthogonal=True, finecontour_Nfine=50), fpol="quad", pressure="quad", wall="slanted"))
 _add(_c("lsn_orth_n200", "LSN", [2, 2], [3, 4, 3], 1, "lsn", dict(orthogonal=True, finecontour_Nfine=200), fpol="quad", pressure="quad", wall="slanted"))
 
-EXTENDED_CAMPAIGN = CORE_CAMPAIGN + ["usn_nonorth", "cdn_nonorth", "ldn_nonorth", "lsn_orth_dct", "lsn_orth_g0", "lsn_orth_lop",
+EXTENDED_CAMPAIGN = CORE_CAMPAIGN + ["usn_nonorth", "cdn_nonorth", "ldn_nonorth", "lsn_orth_g0", "lsn_orth_lop",
                                      "cdn_orth_uo", "ldn_orth_uo", "core_nonorth", "lim_orth_g2", "lsn_orth_wide", "lsn_orth_n50", "lsn_orth_n200", "lsn_orth_weak", "xpt_nonorth", "lsn_tilt_nonorth", "ldn_orth_wide"]
 
 
